@@ -95,6 +95,7 @@ static const HarnessDef* g_def = nullptr;
 static Src* g_cur_src = nullptr;
 static Case* g_cur_case = nullptr;
 static std::string g_fail_dir = ".";
+static bool g_in_replay = false;  // re-executing a saved case: a crash is reported, not saved again
 static std::string g_out;
 static std::string g_engine = "prng";
 static uint64_t g_seed = 1;
@@ -266,6 +267,10 @@ static void on_death() {
   char name[512];
   snprintf(name, sizeof name, "%s/crash-%s-%d.replay", g_fail_dir.c_str(), g_def ? g_def->name : "x",
            (int)getpid());
+  if (g_in_replay) {
+    fprintf(stderr, "VERIF-CRASH during replay\n");
+    return;
+  }
   if (g_cur_src && g_cur_case) {
     write_replay(name, "process died (sanitizer report / signal) while running this case", g_cur_src->log,
                  g_cur_case->fields);
@@ -415,6 +420,7 @@ int verif_main(int argc, char** argv, const HarnessDef& def) {
 
   // ---- replay mode
   if (const char* rp = arg_value("replay")) {
+    g_in_replay = true;
     std::vector<uint64_t> picks;
     Fields fields;
     bool has_picks = false;
